@@ -297,7 +297,12 @@ fn handle(line: &str) -> String {
             let mut b = rpm::PackageBuilder::new("n", "1", "MIT", "noarch", "s").compression(rpm::CompressionType::None);
             let sl = |t: &str| rpm::Scriptlet::new(t).flags(rpm::ScriptletFlags::EXPAND).prog(vec!["/bin/sh", "-e"]);
             let r: Result<rpm::PackageBuilder, rpm::Error> = (|| {
-                match p[1] {
+                let (scn, cmp) = match p[1].strip_prefix("files2_") { Some(c) => ("files2", c), None => (p[1], "none") };
+                b = match cmp {
+                    "gzip" => b.compression(rpm::CompressionWithLevel::Gzip(6)), "xz" => b.compression(rpm::CompressionWithLevel::Xz(6)),
+                    "bzip2" => b.compression(rpm::CompressionWithLevel::Bzip2(6)), "zstd" => b.compression(rpm::CompressionWithLevel::Zstd(3)), _ => b,
+                };
+                match scn {
                     "files2" => {
                         b = b.with_file(&src, rpm::FileOptions::new("/d/f0"))?;
                         b = b.with_file(&src, rpm::FileOptions::new("/e/f1").user("u").group("g"))?;
@@ -508,7 +513,12 @@ fn handle(line: &str) -> String {
             let sizes: Vec<usize> = p.get(1).map(|s| s.split(',').filter_map(|x| x.parse().ok()).collect()).unwrap_or_default();
             let dir = std::env::temp_dir().join(format!("rpm-native-replay-rt-{}", std::process::id()));
             let _ = std::fs::create_dir_all(&dir);
-            let mut b = rpm::PackageBuilder::new("n", "1", "MIT", "noarch", "s").compression(rpm::CompressionType::None);
+            let mut b = rpm::PackageBuilder::new("n", "1", "MIT", "noarch", "s");
+            b = match p.get(2).copied().unwrap_or("none") {
+                "gzip" => b.compression(rpm::CompressionWithLevel::Gzip(6)), "xz" => b.compression(rpm::CompressionWithLevel::Xz(6)),
+                "bzip2" => b.compression(rpm::CompressionWithLevel::Bzip2(6)), "zstd" => b.compression(rpm::CompressionWithLevel::Zstd(3)),
+                _ => b.compression(rpm::CompressionType::None),
+            };
             let content = |i: usize, n: usize| (0..n).map(|k| (17 * i + 31 * k + 1) as u8).collect::<Vec<u8>>();
             for i in (0..sizes.len()).rev() {
                 let f = dir.join(format!("f{}", i));
@@ -611,16 +621,26 @@ fn handle(line: &str) -> String {
             let sizes: Vec<usize> = if p[1] == "-" { vec![] } else { p[1].split(',').filter_map(|x| x.parse().ok()).collect() };
             let dir = std::env::temp_dir().join(format!("rpm-native-replay-dg-{}", std::process::id()));
             let _ = std::fs::create_dir_all(&dir);
-            let mut b = rpm::PackageBuilder::new("n", "1", "MIT", "noarch", "s").compression(rpm::CompressionType::None);
+            // every level of the named compressor is tried; the first level whose digests are wrong is reported
+            let comp = p.get(2).copied().unwrap_or("none");
+            let levels: Vec<rpm::CompressionWithLevel> = match comp {
+                "gzip" => (0..=9).map(rpm::CompressionWithLevel::Gzip).collect(),
+                "xz" => (0..=9).map(rpm::CompressionWithLevel::Xz).collect(),
+                "bzip2" => (1..=9).map(rpm::CompressionWithLevel::Bzip2).collect(),
+                "zstd" => vec![1, 3, 19].into_iter().map(rpm::CompressionWithLevel::Zstd).collect(),
+                _ => vec![rpm::CompressionWithLevel::None],
+            };
             let content = |i: usize, n: usize| (0..n).map(|k| (17 * i + 31 * k + 1) as u8).collect::<Vec<u8>>();
+            let mut verdict = "same".to_string();
+            for lv in levels {
+            let mut b = rpm::PackageBuilder::new("n", "1", "MIT", "noarch", "s").compression(lv);
             for (i, n) in sizes.iter().enumerate() {
                 let f = dir.join(format!("f{}", i));
                 std::fs::write(&f, content(i, *n)).unwrap();
                 b = b.with_file(&f, rpm::FileOptions::new(format!("/d/f{}", i))).unwrap();
             }
             let pkg = b.build();
-            let _ = std::fs::remove_dir_all(&dir);
-            let pkg = match pkg { Ok(p) => p, Err(e) => return format!("build-err {:?}", e).replace(' ', "_") };
+            let pkg = match pkg { Ok(p) => p, Err(e) => { let _ = std::fs::remove_dir_all(&dir); return format!("build-err {:?}", e).replace(' ', "_") } };
             let hx = |d: &[u8]| d.iter().map(|x| format!("{:02x}", x)).collect::<String>();
             let mut hb = Vec::new();
             let mut all = Vec::new();
@@ -631,12 +651,16 @@ fn handle(line: &str) -> String {
             let sha = |d: &[u8]| hx(&sha2::Sha256::digest(d));
             if pkg.metadata.signature.get_entry_data_as_string(rpm::IndexSignatureTag::RPMSIGTAG_SHA256).ok() != Some(sha(&hb).as_str()) { bad.push("header".into()); }
             if pkg.metadata.header.get_entry_data_as_string_array(rpm::IndexTag::RPMTAG_PAYLOADDIGEST).ok().map(|v| v.to_vec()) != Some(vec![sha(&pkg.content)]) { bad.push("payload".into()); }
-            if pkg.metadata.header.get_entry_data_as_string_array(rpm::IndexTag::RPMTAG_PAYLOADDIGESTALT).ok().map(|v| v.to_vec()) != Some(vec![sha(&pkg.content)]) { bad.push("payloadalt".into()); }
+            if comp == "none" && pkg.metadata.header.get_entry_data_as_string_array(rpm::IndexTag::RPMTAG_PAYLOADDIGESTALT).ok().map(|v| v.to_vec()) != Some(vec![sha(&pkg.content)]) { bad.push("payloadalt".into()); }
             if !sizes.is_empty() {
                 let want: Vec<String> = sizes.iter().enumerate().map(|(i, n)| sha(&content(i, *n))).collect();
                 if pkg.metadata.header.get_entry_data_as_string_array(rpm::IndexTag::RPMTAG_FILEDIGESTS).ok().map(|v| v.to_vec()) != Some(want) { bad.push("files".into()); }
             }
-            if bad.is_empty() { "same".to_string() } else { format!("differs: {}", bad.join(",")) }
+            if pkg.verify_digests().is_err() { bad.push("verify_digests".into()); }
+            if !bad.is_empty() { verdict = format!("differs at {}: {}", lv, bad.join(",")).replace(' ', "_"); break; }
+            }
+            let _ = std::fs::remove_dir_all(&dir);
+            verdict
         }
         "built_checks" => {
             // <size,size,...>: build, then verify_digests and offsets vs written bytes
@@ -667,12 +691,20 @@ fn handle(line: &str) -> String {
             let k: usize = p[1].parse().unwrap_or(0);
             let intr_at: usize = p[3].parse().unwrap_or(0);
             let what = p.get(4).copied().unwrap_or("package");
-            let pkg = match rpm::PackageBuilder::new("x", "1.0", "MIT", "noarch", "d").compression(rpm::CompressionType::None).build() {
-                Ok(p) => p,
-                Err(_) => return "build-err".to_string(),
+            // optional 5th argument: a hand-encoded package (hex); then the canonical bytes are the input bytes themselves
+            let given: Option<Vec<u8>> = p.get(5).map(|h| unhex_bytes(h));
+            let pkg = match &given {
+                Some(b) => match rpm::Package::parse(&mut &b[..]) { Ok(p) => p, Err(_) => return "parse-err".to_string() },
+                None => match rpm::PackageBuilder::new("x", "1.0", "MIT", "noarch", "d").compression(rpm::CompressionType::None).build() {
+                    Ok(p) => p,
+                    Err(_) => return "build-err".to_string(),
+                },
             };
             let mut canon = Vec::new();
-            if what == "package" { pkg.write(&mut canon).unwrap() } else { pkg.metadata.write(&mut canon).unwrap() }
+            match &given {
+                Some(b) => canon = if what == "package" { b.clone() } else { b[..b.len() - pkg.content.len()].to_vec() },
+                None => { if what == "package" { pkg.write(&mut canon).unwrap() } else { pkg.metadata.write(&mut canon).unwrap() } }
+            }
             let mut bad = Vec::new();
             let ncalls = if k == 0 { 400 } else { canon.len() / k + 400 };
             for fail_at in 0..ncalls {
